@@ -238,7 +238,8 @@ def run(tier, seed):
 
     # ---- oracle failures = failing inputs of the property itself
     seen = set()
-    for idx in vals["Ocodec"]:
+    # report an ordinary case before one of the known-ambiguous shape
+    for idx in sorted(vals["Ocodec"], key=lambda i: (cases["codec"][i]["Class"] == "witness", i)):
         c = cases["codec"][idx]
         sig = codec_signature(c)
         if sig in seen:
